@@ -263,6 +263,61 @@ def d3(ctx, prog, ci):
     return n_log
 
 
+def d5(ctx, prog, ci):
+    """the samples compared with the bin edges are the samples given: the kernel receives the batch of _accumulate unchanged, or a
+    cast that cannot move a value across an edge (float64).  A narrowing cast (float32 / float16 / an integer type) rounds float64
+    samples next to an edge into the neighbouring bin, or a sample just above the last edge onto it."""
+    acc = prog.resolve_method(ci, '_accumulate')
+    k = prog.resolve_method(ci, '_accumulate_core')
+    if acc is None or k is None:
+        raise AnalysisError('MIA _accumulate / kernel not found')
+    from .. import normalize
+    accn = normalize.normal(prog, acc, skip={'_accumulate_core', '_initialize_accumulators'})
+    calls = [c for c in ast.walk(accn.node) if isinstance(c, ast.Call) and isinstance(c.func, ast.Attribute) and c.func.attr == k.name]
+    key = f'{acc.key}::samples handed to the kernel'
+    if len(calls) != 1:
+        ctx.undecided('C13-D5', key, f'{len(calls)} kernel calls in _accumulate', acc.where())
+        return
+    amap = kernels.call_arg_map(k, calls[0])
+    tparam = acc.params[1]
+    a = amap.get(k.params[0])
+    # follow rebinding of the batch parameter before the call
+    rebinds = [s_ for s_ in ast.walk(accn.node) if isinstance(s_, ast.Assign) and len(s_.targets) == 1 and isinstance(s_.targets[0], ast.Name)
+               and s_.targets[0].id == (a.id if isinstance(a, ast.Name) else tparam)]
+    exprs = [a] + [s_.value for s_ in rebinds]
+    verdict = 'ok'
+    why = ''
+    for e in exprs:
+        if isinstance(e, ast.Name):
+            continue
+        cast = None
+        if isinstance(e, ast.Call):
+            nm = norm(e.func).split('.')[-1]
+            dt = next((kw_.value for kw_ in e.keywords if kw_.arg == 'dtype'), None)
+            if nm == 'astype' and e.args:
+                dt = e.args[0]
+            elif nm in ('asarray', 'ascontiguousarray', 'array', 'require') and dt is None and len(e.args) > 1:
+                dt = e.args[1]
+            elif nm in ('float32', 'float16', 'single', 'half', 'int32', 'int16', 'int8', 'uint8', 'uint16', 'uint32'):
+                dt = ast.Constant(nm)
+            elif nm in ('float64', 'double'):
+                dt = ast.Constant('float64')
+            if nm in ('astype', 'asarray', 'ascontiguousarray', 'array', 'require', 'float32', 'float16', 'single', 'half', 'float64', 'double', 'int32', 'int16', 'int8', 'uint8', 'uint16', 'uint32', 'copy'):
+                cast = norm(dt).strip('\'"').split('.')[-1] if dt is not None else 'same'
+        if cast in ('same', 'float64', 'double', 'longdouble', 'float128'):
+            continue
+        if cast is not None:
+            verdict, why = 'bad', f'`{norm(e)[:70]}` narrows the samples to {cast} before they are compared with the bin edges'
+            break
+        verdict, why = 'unknown', f'`{norm(e)[:70]}`'
+    if verdict == 'ok':
+        ctx.ok('C13-D5', key, 'the kernel bins the samples of the batch as given (no narrowing cast)', acc.where(calls[0]))
+    elif verdict == 'bad':
+        ctx.fail('C13-D5', key, why + ': a float64 sample within rounding distance of an edge changes bin, one just above the last edge is counted instead of discarded', acc.where(calls[0]))
+    else:
+        ctx.undecided('C13-D5', key, f'how the batch reaches the kernel is not understood: {why}', acc.where(calls[0]))
+
+
 def run(ctx, prog):
     ctx.rule('C13-D1', 'bin-edge validation: width differences pass through a sign-insensitive form before the tolerance test; consecutive edges strictly increasing')
     ctx.rule('C13-D2', 'kernel: scaling formula under lo <= x < hi (strict), x == hi -> last bin, else skip; bin count = len(edges) - 1 everywhere')
@@ -271,6 +326,8 @@ def run(ctx, prog):
     ci = d1(ctx, prog)
     d2(ctx, prog, ci)
     n = d3(ctx, prog, ci)
+    ctx.rule('C13-D5', 'the kernel bins the samples of the batch as given: no narrowing cast between _accumulate and the comparison with the edges')
+    d5(ctx, prog, ci)
     ctx.rule('C13-D4', 'axis-label typing of the MIA kernel, _compute_pdf and _compute: every broadcast aligned, (S,B,P,W) reduced to the documented (W,S)')
     from .. import axes
     n4 = axes.check_family(ctx, prog, 'C13-D4', [MIA])
